@@ -72,6 +72,13 @@ class OFDM:
         ValueError
             If the any of the parameters are invalid.
         """
+        # The sizes may come as NumPy integer scalars (e.g. rows of an uint8
+        # or int16 table). Keep them as Python integers: arithmetic on the
+        # parameters (fft_size**2, -cp_size, fft_size + negative subcarrier
+        # numbers, ...) must not wrap around in a narrow or unsigned type.
+        fft_size = int(fft_size)
+        cp_size = int(cp_size)
+
         if (cp_size < 0) or cp_size > fft_size:
             msg = ("cp_size must be nonnegative and cannot be greater "
                    "than fft_size")
@@ -79,6 +86,7 @@ class OFDM:
 
         if num_used_subcarriers is None:
             num_used_subcarriers = fft_size
+        num_used_subcarriers = int(num_used_subcarriers)
 
         if num_used_subcarriers > fft_size:
             msg = ("Number of used subcarriers cannot be greater than the "
